@@ -20,7 +20,7 @@ T=/tmp/seed-$name; rm -rf $T; mkdir -p $T; cp -r /repo/src $T/src
 cd /verif; res=""
 for c in ${@:-$prop}; do
   out=$(VERIF_SCRATCH=$T/v MQTT_SRC=$T/src ./check $c --tier quick 2>&1); rc=$?
-  echo "--- check $c rc=$rc"; echo "$out" | grep -v "^NOTE" | tail -4
+  echo "--- check $c rc=$rc"; echo "$out" | grep -v "^NOTE" | tail -4; [ $rc -eq 2 ] && echo "$out" | tail -30
   res="$res $c:$rc"
   clauses="$clauses$(echo "$out" | grep -o "C[0-9][0-9]\.[a-z_0-9]*" | sort | uniq -c | sort -rn | head -3 | awk '{printf " %s(x%s)", $2, $1}')"
 done
